@@ -14,7 +14,8 @@
    proved under the guard of c16_partial. *)
 From Coq Require Import List ZArith NArith String Bool.
 Import ListNotations.
-From Verif Require Import Common.Base Model.Fmtp Model.Codec Model.Section Proofs.Codec Proofs.Answer.
+From Verif Require Import Common.Base Model.Fmtp Model.Codec Model.HeaderExt Model.Section Model.CodecAssoc
+     Proofs.Codec Proofs.Answer Proofs.CodecHist Proofs.CodecAssoc Proofs.CodecLit.
 Open Scope string_scope.
 
 (* witness: VP8 registered and preferred under payload type 96, offered under
@@ -90,6 +91,140 @@ Theorem c16_compatible_partial_meaning : forall o r,
 Proof. exact partial_ok_spelled. Qed.
 Print Assumptions c16_compatible_partial_meaning.
 
+(* ---------- "the same codec (mime type, clock rate, channels)", literally ---------- *)
+
+(* The theorems above conclude "compatible": an exact fmtp match, or equal
+   mime type / clock rate / channels modulo letter case and the 0 defaults.
+   The property text says the answered payload type maps to the same codec:
+   same_codec o r = equal mime type (ignoring letter case), equal clock rate,
+   equal channels.  The gap between the two is literal_guard a b:
+     - both clock rates are stated (non-zero; an rtpmap always states it),
+     - both state the channel count or both leave it out,
+     - for H264 / VP9 / AV1, whose Match looks at the fmtp line only: entries of
+       the same mime type agree in clock rate and channels.
+   Under it compatible is literal equality: *)
+Theorem c16_compatible_literal : forall a b,
+  compatible a b -> literal_guard a b -> same_codec a b.
+Proof. exact compatible_literal. Qed.
+Print Assumptions c16_compatible_literal.
+
+(* c16_partial with literal equality: for all registrations and all remote
+   descriptions in which rcs is the only section of its kind and every two
+   entries of rcs are under the guard (section_literal: stated clock rates, and
+   no two entries that differ only in clock rate / channels in the way the
+   matching cannot see), a transceiver created from the remote description, or a
+   local one whose preferences are empty, or carry payload type 0 and are under
+   the guard against every offered entry, answers only offered payload types,
+   each for the same codec: mime type (ignoring case), clock rate, channels *)
+Theorem c16_same_codec_partial : forall video audio multi secs e' res k rcs prefs o,
+  k = KVideo \/ k = KAudio ->
+  update_from_remote (new_engine video audio multi) secs = (e', res) ->
+  (forall rcs', In (k, rcs') secs -> rcs' = rcs) ->
+  section_literal rcs ->
+  (prefs = [] \/
+   (forall p, In p prefs -> c_pt p = 0%N /\ forall r, In r rcs -> literal_guard p r) \/
+   prefs = set_prefs_from_remote (negotiated_of e' k) rcs) ->
+  In o (get_codecs (negotiated_of e' k) prefs) ->
+  exists r, In r rcs /\ c_pt r = c_pt o /\ same_codec o r.
+Proof. exact answer_same_codec. Qed.
+Print Assumptions c16_same_codec_partial.
+
+(* the general form: any negotiated list that holds offered codecs only, any
+   preference list whose entries have payload type 0 and are under the guard, or
+   keep a non-zero payload type offered for literally the same codec *)
+Theorem c16_same_codec_grounded : forall offered neg prefs o,
+  grounded_list offered neg ->
+  (forall p, In p prefs ->
+     (c_pt p = 0%N /\ forall r, In r offered -> literal_guard p r) \/
+     (c_pt p <> 0%N /\ pref_grounded_lit offered p)) ->
+  In o (get_codecs neg prefs) ->
+  exists r, In r offered /\ c_pt r = c_pt o /\ same_codec o r.
+Proof. exact get_codecs_offered_lit. Qed.
+Print Assumptions c16_same_codec_grounded.
+
+(* outside the guard the literal statement fails while c16_partial's holds: H264
+   offered with one fmtp line under payload types 100 (clock rate 90000) and 101
+   (48000); the transceiver created from that section answers payload type 100
+   for the 48000 entry (replayed on a real PeerConnection, finding
+   answer-pt-of-fmtp-equivalent-offered-codec) *)
+Theorem c16_same_codec_refuted :
+  exists video secs rcs e' res o,
+    update_from_remote (new_engine video [] true) secs = (e', res) /\ res = Ok tt /\
+    secs = [(KVideo, rcs)] /\
+    In o (get_codecs (negotiated_of e' KVideo) (set_prefs_from_remote (negotiated_of e' KVideo) rcs)) /\
+    (exists r, In r rcs /\ c_pt r = c_pt o /\ compatible o r) /\
+    (forall r, In r rcs -> c_pt r = c_pt o -> c_clock r <> c_clock o) /\
+    ~ section_literal rcs.
+Proof. exact answer_not_same_codec. Qed.
+Print Assumptions c16_same_codec_refuted.
+
+(* the guard holds of an ordinary section: VP8 with RTX, H264 in two
+   packetization modes, every clock rate stated *)
+Example c16_section_literal_nontrivial :
+  section_literal [ mkCodec "video/VP8" 90000 0 "" [] 100; mkCodec "video/rtx" 90000 0 "apt=100" [] 101;
+                    mkCodec "video/H264" 90000 0 lw_line [] 102;
+                    mkCodec "video/H264" 90000 0 "packetization-mode=0;profile-level-id=42e01f" [] 104 ].
+Proof. exact section_literal_example. Qed.
+
+(* ---------- histories of answered offers, transceiver matching inside the step ---------- *)
+
+(* Model/CodecAssoc.v: the media state of a PeerConnection (engine, header
+   extensions, transceivers with mid / kind / direction / sender, their
+   preference lists) under AddTransceiverFromKind+SetCodecPreferences and
+   exchanges SetRemoteDescription(offer); CreateAnswer; SetLocalDescription.
+   Which transceiver answers which offered section is computed by the model
+   (findByMid, satisfyTypeAndDirection, creation from the remote description),
+   not assumed.
+
+   For every registration, every history os of such steps and every further
+   offer, provided that
+     - an offered section with mid m is of the same kind K m in every offer,
+     - every offered section of kind k lists the same codecs R k (the
+       generalisation of "the only section of its kind": the negotiated lists
+       are shared by all sections of a kind and by all descriptions),
+     - local transceivers get preference lists with payload type 0 throughout
+       (or none),
+   the answer has one section per offered section that is not skipped, in offer
+   order, produced by a transceiver that carries that section's mid, and every
+   codec it lists is offered in that very section under the same payload type
+   for a compatible codec. *)
+Theorem c16_hist_partial : forall K R video audio multi x os offer s' l,
+  Forall (mop_ok K R) os -> offer_ok K R offer ->
+  exchange (run_mops (new_mpc (new_engine video audio multi) x) os) offer = (s', Ok l) ->
+  exists s1 assoc,
+    srd_offer (run_mops (new_mpc (new_engine video audio multi) x) os) offer = (s1, Ok tt) /\
+    assoc_of s1 offer = Ok assoc /\
+    Forall2 (fun oi sec => section_answers (fst oi) sec) assoc l /\
+    (forall o i, In (o, i) assoc ->
+       exists j t, nth_error offer j = Some o /\ os_kind o <> KUnknown /\
+                   nth_error (m_trs s1) i = Some t /\ AD.t_mid t = Some j).
+Proof. exact history_answers_offered. Qed.
+Print Assumptions c16_hist_partial.
+
+(* the invariant behind it, for any state: transceivers with a mid are of the
+   kind of that mid, the negotiated lists hold offered codecs only, every
+   preference entry has payload type 0 or an offered payload type for a
+   compatible codec -- kept by every step of such a history *)
+Theorem c16_hist_invariant : forall K R os s,
+  minv K R s -> Forall (mop_ok K R) os -> minv K R (run_mops s os).
+Proof. exact minv_run. Qed.
+Print Assumptions c16_hist_invariant.
+
+(* what SetRemoteDescription's matching does to the transceiver list, for all
+   lists and offers: positions keep kind, sender and a mid they have; a
+   transceiver that carries a mid is of that mid's kind afterwards if that held
+   before; every appended transceiver was created for a section that is not
+   skipped, carries its mid, is of its kind and has no sender *)
+Theorem c16_matching : forall K p secs,
+  (forall j k d, nth_error secs j = Some (k, d) -> d <> AD.DUnk -> kc k = K j) ->
+  grows p (AD.set_remote p secs) /\
+  (mid_kind K p -> mid_kind K (AD.set_remote p secs)) /\
+  (forall i t, List.length p <= i -> nth_error (AD.set_remote p secs) i = Some t ->
+     exists j k d, nth_error secs j = Some (k, d) /\ d <> AD.DUnk /\
+                   AD.t_mid t = Some j /\ AD.t_kind t = k /\ AD.t_sender t = false).
+Proof. exact set_remote_effect. Qed.
+Print Assumptions c16_matching.
+
 (* the premises are satisfiable on non-trivial values: a transceiver created
    from a remote section with remapped payload types and RTX *)
 Example c16_example_from_remote :
@@ -101,3 +236,35 @@ Example c16_example_from_remote :
   r = Ok tt /\
   map c_pt (get_codecs (negotiated_of e KVideo) (set_prefs_from_remote (negotiated_of e KVideo) rcs)) = [100%N; 101%N].
 Proof. vm_compute. split; reflexivity. Qed.
+
+(* the history premises on non-trivial values: a sendonly video offer answered by
+   a transceiver created from it; a local recvonly transceiver with a payload
+   type 0 preference added; a re-offer with a second video section (same codecs,
+   sendrecv) which that local transceiver takes, the first section going inactive *)
+Definition ex16_rcs : list codec :=
+  [ mkCodec "video/VP8" 90000 0 "" [] 100; mkCodec "video/rtx" 90000 0 "apt=100" [] 101 ].
+Definition ex16_K (m : nat) : kind := KVideo.
+Definition ex16_R (k : kind) : list codec := ex16_rcs.
+Definition ex16_os : list mop :=
+  [ MExchange [mkOsec KVideo AD.Sendonly ex16_rcs []];
+    MAdd KVideo AD.Recvonly [mkCodec "video/VP8" 90000 0 "" [] 0] ].
+Definition ex16_offer : list osec :=
+  [ mkOsec KVideo AD.Inactive ex16_rcs []; mkOsec KVideo AD.Sendrecv ex16_rcs [] ].
+
+Example c16_example_history :
+  Forall (mop_ok ex16_K ex16_R) ex16_os /\ offer_ok ex16_K ex16_R ex16_offer /\
+  let s := run_mops (new_mpc (new_engine [mkCodec "video/VP8" 90000 0 "" [] 96; mkCodec "video/rtx" 90000 0 "apt=96" [] 97] [] true) x_empty) ex16_os in
+  match exchange s ex16_offer with
+  | (s', Ok l) => map sec_formats l = [[100%N; 101%N]; [100%N]] /\
+                  map AD.t_mid (m_trs s') = [Some 0; Some 1] /\ map tx_remote (m_ext s') = [true; false]
+  | _ => False
+  end.
+Proof.
+  split; [|split].
+  - constructor; [intros m o H Hk; destruct m as [|m]; cbn in H; [|destruct m; discriminate];
+                   inversion H; subst; split; reflexivity|].
+    constructor; [|constructor]. split; [discriminate|]. intros p [<-|[]]. reflexivity.
+  - intros m o H Hk. destruct m as [|[|m]]; cbn in H; try (destruct m; discriminate);
+      inversion H; subst; split; reflexivity.
+  - vm_compute. repeat split.
+Qed.
